@@ -1371,3 +1371,150 @@ func RuleM9(c *Ctx) {
 		c.Unresolved("M9", "banderwagon.NewPrecompPoint")
 	}
 }
+
+// ---------------------------------------------------------------------------
+// M10 split coverage of MultiExp; PW powers recurrence
+
+func RuleM10(c *Ctx) {
+	c.Rule("M10", "split coverage: MultiExp hands msmInnerPointProj the ranges [i*nbPoints, (i+1)*nbPoints) for i = 0..nbSplits-2 and the open-ended tail [(nbSplits-1)*nbPoints:] (nbSplits*nbPoints may be smaller than the input after repeated halving), one result slot per spawned split, every slot added exactly once")
+	fn := c.P.Fn("bandersnatch", "", "MultiExp")
+	if fn == nil {
+		c.Unresolved("M10", "bandersnatch.MultiExp")
+		return
+	}
+	c.Saw(core.FnName(fn))
+	var site *spawnSite
+	for _, s := range c.spawnSites() {
+		if s.parent == fn && s.kind == "go" {
+			site = s
+		}
+	}
+	ok := true
+	var why []string
+	var nbPoints, nbSplits ssa.Value
+	if site == nil || len(site.args) != 3 {
+		ok = false
+		why = append(why, "the goroutine per split (start, end, i) is not recognised")
+	} else {
+		cl := loopOf(countedLoops(fn), site.at.Block())
+		// start = i*nbPoints, end = start+nbPoints, loop i = 0 .. nbSplits-2
+		st, isMul := core.StripConv(site.args[0]).(*ssa.BinOp)
+		en, isAdd := core.StripConv(site.args[1]).(*ssa.BinOp)
+		if cl == nil || !isMul || st.Op != token.MUL || st.X != ssa.Value(cl.phi) || !isAdd || en.Op != token.ADD || en.X != ssa.Value(st) || en.Y != st.Y || site.args[2] != ssa.Value(cl.phi) {
+			ok = false
+			why = append(why, "split i does not get [i*nbPoints, i*nbPoints+nbPoints)")
+		} else {
+			nbPoints = st.Y
+			if b, isSub := core.StripConv(cl.bound).(*ssa.BinOp); isSub && b.Op == token.SUB {
+				if one, isK := core.ConstInt(b.Y); isK && one == 1 {
+					nbSplits = b.X
+				}
+			}
+			z, isZ := core.ConstInt(cl.init)
+			if nbSplits == nil || !isZ || z != 0 || cl.step != 1 || cl.op != token.LSS {
+				ok = false
+				why = append(why, "the spawn loop does not run i = 0 .. nbSplits-2")
+			}
+		}
+		// inside the goroutine: points[start:end], scalars[start:end] with its own parameters
+		if site.target != nil {
+			for _, call := range callsTo(site.target, "/bandersnatch", "", "msmInnerPointProj") {
+				for _, a := range call.Call.Args[2:4] {
+					sl, isSl := a.(*ssa.Slice)
+					if !isSl || sl.Low == nil || sl.High == nil || core.PathOf(sl.Low) != "p:start" || core.PathOf(sl.High) != "p:end" {
+						ok = false
+						why = append(why, "a split does not process exactly [start:end]")
+					}
+				}
+			}
+		}
+	}
+	// the tail processed by the caller
+	var tail *ssa.Call
+	for _, call := range callsTo(fn, "/bandersnatch", "", "msmInnerPointProj") {
+		tail = call
+	}
+	if tail == nil {
+		ok = false
+		why = append(why, "no tail call of msmInnerPointProj")
+	} else if nbPoints != nil && nbSplits != nil {
+		for _, a := range tail.Call.Args[2:4] {
+			sl, isSl := a.(*ssa.Slice)
+			good := isSl && sl.High == nil && sl.Low != nil
+			if good {
+				lo, isMul := core.StripConv(sl.Low).(*ssa.BinOp)
+				good = isMul && lo.Op == token.MUL && core.SameExpr(lo.Y, nbPoints)
+				if good {
+					sub, isSub := core.StripConv(lo.X).(*ssa.BinOp)
+					good = isSub && sub.Op == token.SUB && core.SameExpr(sub.X, nbSplits)
+					if good {
+						one, isK := core.ConstInt(sub.Y)
+						good = isK && one == 1
+					}
+				}
+			}
+			if !good {
+				ok = false
+				why = append(why, "the last split is not the open-ended tail [(nbSplits-1)*nbPoints:]: when nbSplits*nbPoints < len(points) the trailing points are dropped from the sum")
+				break
+			}
+		}
+	}
+	c.Check(ok, "M10", "MultiExp:splits-cover-input", fn.Pos(), strings.Join(uniq(why), "; "), "splits [i*nb,(i+1)*nb) for i<nbSplits-1, tail [(nbSplits-1)*nb:]")
+}
+
+// RulePW — common.PowersOf is the plain recurrence.
+func RulePW(c *Ctx) {
+	c.Rule("PW", "powers recurrence [idiom]: common.PowersOf sets result[0] = 1 and result[i] = result[i-1] * x for i = 1 .. degree-1 (the only accepted form; anything else is undecided), so coefficient i is x^i for every length")
+	fn := c.P.Fn("common", "", "PowersOf")
+	if fn == nil {
+		c.Unresolved("PW", "common.PowersOf")
+		return
+	}
+	c.Saw(core.FnName(fn))
+	cls := countedLoops(fn)
+	muls := callsTo(fn, "bandersnatch/fr", "Element", "Mul")
+	if len(cls) != 1 || len(muls) != 1 || len(core.CallsIn(fn)) != 2 {
+		c.Und("PW", "PowersOf:recurrence", fn.Pos(), fmt.Sprintf("PowersOf is no longer the single-loop recurrence (%d loops, %d multiplications, %d calls); cannot decide that coefficient i is x^i", len(cls), len(muls), len(core.CallsIn(fn))))
+		return
+	}
+	cl, m := cls[0], muls[0]
+	ok := true
+	one, isOne := core.ConstInt(cl.init)
+	if !isOne || one != 1 || cl.step != 1 || cl.op != token.LSS || core.PathOf(cl.bound) != "p:degree" {
+		ok = false
+	}
+	dst, isD := m.Call.Args[0].(*ssa.IndexAddr)
+	a, isA := m.Call.Args[1].(*ssa.IndexAddr)
+	if !isD || !isA || dst.Index != ssa.Value(cl.phi) || dst.X != a.X || core.PathOf(m.Call.Args[2]) != "&p:x" {
+		ok = false
+	} else if sub, isSub := a.Index.(*ssa.BinOp); !isSub || sub.Op != token.SUB || sub.X != ssa.Value(cl.phi) {
+		ok = false
+	} else if k, isK := core.ConstInt(sub.Y); !isK || k != 1 {
+		ok = false
+	}
+	// result[0] = fr.One(); result has length degree; returned
+	first := false
+	core.AllInstrs(fn, func(i ssa.Instruction) {
+		if st, isSt := i.(*ssa.Store); isSt {
+			if ia, isIA := st.Addr.(*ssa.IndexAddr); isIA && isD && ia.X == dst.X {
+				if z, isZ := core.ConstInt(ia.Index); isZ && z == 0 {
+					if call, isCall := st.Val.(*ssa.Call); isCall && core.IsFunc(core.Callee(call.Common()), "bandersnatch/fr", "One") {
+						first = true
+					}
+				}
+			}
+		}
+	})
+	if isD {
+		if ms, isMS := dst.X.(*ssa.MakeSlice); !isMS || core.PathOf(ms.Len) != "p:degree" {
+			ok = false
+		}
+		for _, r := range core.Returns(fn) {
+			if r.Results[0] != dst.X {
+				ok = false
+			}
+		}
+	}
+	c.Check(ok && first, "PW", "PowersOf:recurrence", fn.Pos(), "PowersOf is not result[0]=1, result[i]=result[i-1]*x for i=1..degree-1", "result[0] = 1; result[i] = result[i-1] * x")
+}
